@@ -158,4 +158,31 @@ predicate proofs, for each proof, before `_verify_ne_predicate` (recognised by t
 collecting the responses into a map first, or comparing after the loop, breaks it) -/
 theorem mj_link_from_source : Gen.mjLinkInLoop = true := rfl
 
+/-- **a predicate is proven about a hidden attribute only**: if the verifier's recomputation of a
+sub-proof succeeds, every predicate's attribute is among the unrevealed attributes — the names whose
+responses the verification equation consumes — so the response it is linked to (`ne_bound_to_eq`)
+is a real exponent, not an entry added to `eq_proof.m` for an attribute the sub-proof reveals.
+False of the pinned tree: "age ≥ 896" was accepted for a credential revealing age = 852
+(repaired 643a1c8). -/
+theorem predicate_attr_is_hidden {G : Type} (o : GroupOps G) (m : OvfMode) (pk : PubKey G)
+    (eq : EqProof G) (ne : List (NeProof G)) (c : Int) (un : List String) (ts : List G)
+    (h : verifyPrimaryProof o m pk eq ne c un = .ok ts) : ∀ p ∈ ne, p.pred.attr ∈ un := by
+  unfold verifyPrimaryProof at h
+  cases h1 : verifyEquality o pk eq c un with
+  | ok t =>
+    rw [h1] at h; simp only [Outcome.bind_ok] at h
+    split at h
+    · simp at h
+    · rename_i hany
+      intro p hp
+      simp only [Bool.not_eq_true, List.any_eq_false] at hany
+      have := hany p hp
+      simpa using this
+  | err => rw [h1] at h; simp at h
+  | panic => rw [h1] at h; simp at h
+
+/-- the source has that check where the model has it: inside the loop over the predicate proofs,
+before the link check (recognised by the translator) -/
+theorem predicate_hidden_guard_from_source : Gen.predicateOnRevealedRejected = true := rfl
+
 end CL.C03
